@@ -190,7 +190,11 @@ Definition fitting_methods (base : bytes) (routes : list route) (path : bytes) :
 
 (* what was observed for one request: the handler of operation h ran with these path parameters,
    or no handler ran and this status and Allow set were answered, or the server panicked *)
-Inductive pobs := PRan (h : nat) (ps : list (bytes * bytes)) | PStatus (code : nat) (allow : list bytes) | PPanicked.
+Inductive pobs :=
+| PRan (h : nat) (ps : list (bytes * bytes))
+| PStatus (code : nat) (allow : list bytes)
+| PPanicked
+| PNotServed.   (* the request was handed to the router only, not to a served handler *)
 
 Definition spec_ok (base : bytes) (routes : list route) (method path : bytes) (o : pobs) : bool :=
   let cs := candidates base routes (upper method) path in
@@ -207,4 +211,52 @@ Definition spec_ok (base : bytes) (routes : list route) (method path : bytes) (o
     | ms => Nat.eqb code 405 && set_eqb bytes_eqb allow ms
     end
   | PPanicked => false
+  | PNotServed => true
   end.
+
+(* ---------- the route sets the dispatch theorems speak about ---------- *)
+(* every closing brace of the pattern ends its segment: no literal text after a placeholder inside
+   a segment, hence no composite segment *)
+Fixpoint rbrace_ends_seg (p : bytes) : bool :=
+  match p with
+  | [] => true
+  | c :: r =>
+    (if Nat.eqb c RBRACE then match r with [] => true | d :: _ => Nat.eqb d SLASH end else true)
+    && rbrace_ends_seg r
+  end.
+
+(* every placeholder name the router extracts from the converted key is written in braces in the
+   pattern *)
+Definition names_occur (pat : bytes) : bool :=
+  forallb (fun n => match index_of (LBRACE :: n ++ [RBRACE]) pat with Some _ => true | None => false end)
+          (snd (key_shape (convert_template pat))).
+
+Definition plain_pattern (pat : bytes) : bool := rbrace_ends_seg pat && names_occur pat.
+
+(* AddRoute finds the handler of the operation itself (the joined path minus the base path is the
+   template again) *)
+Definition self_registered (base : bytes) (routes : list route) (r : route) : bool :=
+  match record_of base routes r with
+  | Some (_, (_, (op, h))) => Nat.eqb op h
+  | None => false
+  end.
+
+(* plain route sets: whole-segment placeholders only, every operation registered under its own
+   template, and per method pairwise distinct shapes of routable keys *)
+Definition plain_routes (base : bytes) (routes : list route) : bool :=
+  forallb (fun r => plain_pattern (path_join base (r_tpl r))
+                    && self_registered base routes r
+                    && wf_patset (table base routes routes (upper (r_method r)))) routes.
+
+(* the denco key of a route and what the cleaned request path binds against it *)
+Definition route_key (base : bytes) (r : route) : bytes := convert_template (path_join base (r_tpl r)).
+Definition route_shape (base : bytes) (r : route) : shape := fst (key_shape (route_key base r)).
+Definition route_names (base : bytes) (r : route) : list bytes := snd (key_shape (route_key base r)).
+Definition fits (base : bytes) (r : route) (path : bytes) : option (list bytes) :=
+  smatch (route_shape base r) (clean path).
+Definition under (m : bytes) (r : route) : Prop := upper (r_method r) = upper m.
+
+(* the route sets the totality theorem speaks about: every method table holds routable keys of
+   pairwise distinct shapes (composite templates included) *)
+Definition wf_tables (base : bytes) (routes : list route) : bool :=
+  forallb (fun r => wf_patset (table base routes routes (upper (r_method r)))) routes.
